@@ -160,6 +160,18 @@ class _Continue(Exception):
     pass
 
 
+def _has_own_yield(fn_node) -> bool:
+    todo = list(fn_node.body) if isinstance(fn_node.body, list) else [fn_node.body]
+    while todo:
+        n = todo.pop()
+        if isinstance(n, (ast.Yield, ast.YieldFrom)):
+            return True
+        if isinstance(n, (ast.FunctionDef, ast.AsyncFunctionDef, ast.Lambda, ast.ClassDef)):
+            continue
+        todo.extend(ast.iter_child_nodes(n))
+    return False
+
+
 def term_symbol(items: List[Tuple[str, int]]) -> str:
     """Symbol of a product of unit symbols, in the documentation's convention."""
     pos, neg = [], []
@@ -186,7 +198,8 @@ _BUILTINS = ("Decimal", "Fraction", "Term", "TableConverter", "Quantity", "len",
              "str", "int", "tuple", "list", "dict", "sorted", "reversed", "isinstance", "sum", "min", "max",
              "abs", "round", "repr", "float", "bool", "getattr", "print", "map", "filter", "any", "all", "set", "iter",
              "List", "Tuple", "Dict", "Optional", "Union", "MutableMapping", "Mapping", "Sequence", "Iterable",
-             "Iterator", "Callable", "Any", "Element", "suppress", "type", "Rational", "Real", "Integral", "Number")
+             "Iterator", "Callable", "Any", "Element", "suppress", "type", "Rational", "Real", "Integral", "Number",
+             "locals", "format", "issubclass", "Unit", "QuantityMeta")
 
 
 class Catalogue:
@@ -801,8 +814,9 @@ class Catalogue:
         self.err(f"subscript of {obj!r}", n)
 
     def _e_Attribute(self, n, env):
-        obj = self._eval(n.value, env)
-        a = n.attr
+        return self._attr(self._eval(n.value, env), n.attr, n)
+
+    def _attr(self, obj, a, n):
         if isinstance(obj, CType):
             if a == "ref_unit":
                 if obj.ref_unit is None:
@@ -979,10 +993,36 @@ class Catalogue:
                 self.err(f"unexpected keyword arguments {sorted(kwargs)} for {fn.name}", node)
         if isinstance(fn.node, ast.Lambda):
             return self._eval(fn.node.body, env)
+        if _has_own_yield(fn.node):
+            # a generator function: module-level code is finite and deterministic, so what it yields is collected
+            # eagerly (the consumer sees the same sequence of values)
+            stack = self.__dict__.setdefault("_gen_stack", [])
+            stack.append([])
+            try:
+                self._exec_block(fn.node.body, env)
+            except _Return:
+                pass
+            finally:
+                out = stack.pop()
+            return out
         try:
             self._exec_block(fn.node.body, env)
         except _Return as r:
             return r.v
+        return None
+
+    def _e_Yield(self, n, env):
+        stack = self.__dict__.get("_gen_stack")
+        if not stack:
+            self.err("yield outside a function", n)
+        stack[-1].append(self._eval(n.value, env) if n.value is not None else None)
+        return None
+
+    def _e_YieldFrom(self, n, env):
+        stack = self.__dict__.get("_gen_stack")
+        if not stack:
+            self.err("yield from outside a function", n)
+        stack[-1].extend(self._iter(self._eval(n.value, env), n))
         return None
 
     def _call_bound(self, b: CBound, args, kwargs, node):
@@ -1346,6 +1386,196 @@ class ModuleFold(Catalogue):
             return "return", self._call_func(fn, list(args), {})
         except _PyRaise as ex:
             return "raise", ex.name
+
+
+class CDefinition:
+    """The definition of a unit / class as the documentation generator sees it: only its text form matters."""
+
+    def __init__(self, text):
+        self.text = text
+
+    def __repr__(self):
+        return f"<definition {self.text}>"
+
+
+class DocScript(Catalogue):
+    """Evaluates the documentation generator (utils/make_predef_units_doc.py) over an evaluated catalogue and
+    captures what it prints."""
+
+    def __init__(self, cat: Catalogue, module):
+        self.__dict__.update(cat.__dict__)
+        self.cat = cat
+        self.file = module.rel() if hasattr(module, "rel") else "utils/make_predef_units_doc.py"
+        self.bind_imports = True
+        self.printed: List[str] = []
+        self.unit_lines: List[tuple] = []       # (printing function, argument values) of every call
+        self.type_index = {id(t): i for i, t in enumerate(cat.types.values())}
+        env: Dict[str, object] = {}
+        self.script_env = env
+        for st in module.tree.body:
+            self.cur = st
+            if isinstance(st, ast.ImportFrom) and any(a.name == "*" for a in st.names):
+                # star import of the catalogue: its public names
+                for k, v in cat.env.items():
+                    if not k.startswith("_"):
+                        env.setdefault(k, v)
+                continue
+            if isinstance(st, (ast.Import, ast.ImportFrom)):
+                for a in st.names:
+                    nm = a.asname or a.name.split(".")[0]
+                    env[nm] = CBuiltin(nm)
+                continue
+            self._exec(st, env, top=True)
+
+    def _attr(self, obj, a, n):
+        if isinstance(obj, CType):
+            if a in ("ref_unit", "_ref_unit"):
+                return obj.ref_unit
+            if a in ("norm_sort_key", "is_derived_cls", "is_base_cls"):
+                return CBound(obj, a)
+            if a in ("definition", "_definition"):
+                return CDefinition(self._cls_text(obj))
+            if a == "_reg_id":
+                return self.type_index[id(obj)]
+        if isinstance(obj, CUnit):
+            if a == "_equiv":
+                ref = obj.ctype.ref_unit
+                if ref is None or obj.scale is None or ref.scale is None:
+                    return None
+                return obj.scale / ref.scale
+            if a in ("definition", "_definition", "normalized_definition"):
+                return CDefinition(f"definition of {obj.symbol}" if obj is not obj.ctype.ref_unit or obj.ctype.definition
+                                   else obj.symbol)
+            if a in ("is_ref_unit", "is_base_unit", "is_derived_unit"):
+                return CBound(obj, a)
+        if isinstance(obj, CDefinition):
+            if a == "normalized":
+                return CBound(obj, a)
+        if isinstance(obj, CBuiltin) and a in ("__name__", "__qualname__"):
+            return obj.name
+        if isinstance(obj, CFunc) and a in ("__name__", "__qualname__"):
+            return obj.name
+        return super()._attr(obj, a, n)
+
+    def _cls_text(self, t: CType) -> str:
+        d = t.definition
+        if not d:
+            return t.name
+        items = getattr(d, "items", d)
+        try:
+            return ".".join(f"{x.name}" + (f"^{e}" if e != 1 else "") for x, e in items)
+        except Exception:
+            return f"definition of {t.name}"
+
+    def _call_bound(self, b: CBound, args, kwargs, node):
+        obj, a = b.obj, b.attr
+        if isinstance(obj, CType):
+            if a == "norm_sort_key":
+                return self.type_index[id(obj)]
+            if a == "is_derived_cls":
+                return bool(obj.definition)
+            if a == "is_base_cls":
+                return not obj.definition
+        if isinstance(obj, CUnit):
+            if a == "is_ref_unit":
+                return obj is obj.ctype.ref_unit
+            if a == "is_base_unit":
+                return obj.how == "base"
+            if a == "is_derived_unit":
+                return obj.how != "base"
+        if isinstance(obj, CDefinition) and a == "normalized":
+            return obj
+        return super()._call_bound(b, args, kwargs, node)
+
+    def _fmt_arg(self, v):
+        if isinstance(v, CDefinition):
+            return v.text
+        return super()._fmt_arg(v)
+
+    def _truth(self, v) -> bool:
+        if isinstance(v, CDefinition):
+            return True
+        return super()._truth(v)
+
+    def _e_Compare(self, n, env):
+        # definitions compare by their text
+        if any(isinstance(op, (ast.Eq, ast.NotEq)) for op in n.ops):
+            vals = [self._eval(n.left, env)] + [self._eval(c, env) for c in n.comparators]
+            if any(isinstance(v, CDefinition) for v in vals) and len(vals) == 2:
+                t = [v.text if isinstance(v, CDefinition) else v for v in vals]
+                return (t[0] == t[1]) if isinstance(n.ops[0], ast.Eq) else (t[0] != t[1])
+        return super()._e_Compare(n, env)
+
+    def _call_func(self, fn: CFunc, args, kwargs, node=None):
+        self.unit_lines.append((fn.name, list(args)))
+        return super()._call_func(fn, args, kwargs, node)
+
+    def _call_builtin(self, name, args, kwargs, node):
+        if name == "print":
+            sep = kwargs.get("sep", " ")
+            end = kwargs.get("end", "\n")
+            self.printed.append((sep if isinstance(sep, str) else " ").join(self._text(a) for a in args)
+                                + (end if isinstance(end, str) else "\n"))
+            return None
+        if name == "locals":
+            return dict(self.script_env)
+        if name == "format":
+            v = self._fmt_arg(args[0])
+            spec = args[1] if len(args) > 1 else ""
+            if isinstance(v, Fraction):
+                v = str(v)
+            try:
+                return format(v, spec)
+            except (TypeError, ValueError):
+                self.err(f"format({v!r}, {spec!r})", node)
+        if name == "isinstance" and len(args) == 2:
+            return self._isinstance(args[0], args[1])
+        if name == "issubclass" and len(args) == 2:
+            a, b = args
+            if isinstance(b, CBuiltin) and b.name == "Quantity":
+                return isinstance(a, CType) or (isinstance(a, CBuiltin) and a.name == "Quantity")
+            if isinstance(b, CType):
+                return a is b
+            return False
+        if name == "str" and args and isinstance(args[0], CDefinition):
+            return args[0].text
+        if name == "sorted":
+            seq = self._iter(args[0], node)
+            key = kwargs.get("key")
+            kf = (lambda x: self._call_func(key, [x], {}, node)) if isinstance(key, CFunc) else (lambda x: x)
+            keyed = [(kf(x), x) for x in seq]
+            try:
+                keyed.sort(key=lambda kx: kx[0], reverse=bool(kwargs.get("reverse")))
+            except TypeError:
+                self.err("sorted(): keys that do not compare", node)
+            return [x for _k, x in keyed]
+        return super()._call_builtin(name, args, kwargs, node)
+
+    def _isinstance(self, v, spec) -> bool:
+        if isinstance(spec, tuple):
+            return any(self._isinstance(v, s_) for s_ in spec)
+        nm = spec.name if isinstance(spec, (CBuiltin, CType)) else None
+        if nm == "type":
+            return isinstance(v, CType) or (isinstance(v, CBuiltin) and v.name in ("Quantity", "Unit", "QuantityMeta", "Decimal",
+                                                                                     "Fraction", "Term", "TableConverter"))
+        if nm in ("QuantityMeta",):
+            return isinstance(v, CType) or (isinstance(v, CBuiltin) and v.name == "Quantity")
+        if nm == "Unit":
+            return isinstance(v, CUnit)
+        if nm == "Quantity":
+            return isinstance(v, CQty)
+        if nm == "str":
+            return isinstance(v, str)
+        if nm in ("Rational", "Real", "Number", "Decimal", "Fraction"):
+            return isinstance(v, (int, Fraction)) and not isinstance(v, bool)
+        if nm == "int":
+            return isinstance(v, int)
+        if isinstance(spec, CType):
+            return isinstance(v, CQty) and v.unit.ctype is spec
+        return False
+
+    def text(self) -> str:
+        return "".join(self.printed)
 
 
 class _Scope(dict):
